@@ -178,7 +178,8 @@ func NewPESHeader(pesBytes []byte) (PESHeader, error) {
 		pes.streamId = uint8(pesBytes[3])
 
 		pes.pesPacketLength = uint16(pesBytes[4])<<8 | uint16(pesBytes[5])
-		if len(pesBytes) > 6 {
+		// the flags (data_alignment_indicator among them) belong to the optional header
+		if len(pesBytes) > 6 && pes.optionalFieldsExist() {
 			pes.dataAlignment = pesBytes[6]&0x04 != 0
 		}
 		dataStartIndex := 6
